@@ -37,6 +37,7 @@ def run(ck):
     ck.rule("C13.R12", "the set of configured span lifecycle points is what the user's expression denotes: FmtSpan's operators compute the operator they are named after", floor=6)
     ck.rule("C13.R13", "a span's formatted fields accumulate: handing out the writer over them and recording further values never discards what is already there", floor=3)
     ck.rule("C13.R14", "a writer expression denotes what its spelling says: each MakeWriterExt adaptor builds its own combinator from (self, argument) in place, the provided make_writer_for is make_writer, and the sum / guard writers forward every io::Write method to the writer they hold", floor=20)
+    ck.rule("C13.R15", "a clock that cannot tell the time costs the timestamp, not the record: format_timestamp never returns the timer's error", floor=2)
     ck.rule("C13.R10", "every field a formatter's visitor is handed ends up in the record: no record_* path drops a field (except after an earlier write error)", floor=4)
     ck.rule("C13.R9", "formatter options have the polarity of their name: nothing is written because a display_* flag is off", floor=4)
     ck.rule("C13.R8", "a formatting panic the caller caught does not silence the thread: get_default's re-entrancy flag is given back on unwinding (as C02.R6)", floor=3)
@@ -58,6 +59,7 @@ def run(ck):
     r12b(ck, F)
     r13(ck, F)
     r14(ck, F)
+    r15(ck, F)
     from rules import C02
     C02.r6(ck, F, rid="C13.R8")
 
@@ -598,6 +600,43 @@ def r14(ck, F):
                 ck.bad("C13.R14", key, where(b.raw["sp"]), "; ".join(sorted(set(problems))), fn=b.path)
             else:
                 ck.ok("C13.R14", key, fn=b.path)
+
+
+def r15(ck, F):
+    """FormatTime::format_time may fail for reasons that have nothing to do with the writer (LocalTime without a known
+    offset, a custom clock). The three text formatters share Format::format_timestamp; if it hands that error on, every
+    format_event fails and the event's record -- level, spans, fields -- is replaced by an error notice or by nothing."""
+    b = F.body("tracing_subscriber::fmt::format::Format::<F, T>::format_timestamp")
+    if not ck.anchor("C13.R15", "Format::format_timestamp", b):
+        return
+    key = "Format::format_timestamp swallows the timer's error (and says so in the record)"
+    leaks = []
+    n = 0
+    for pth in PathEval(b).run():
+        if pth.end != "return":
+            continue
+        n += 1
+        r = show(pth.ret)
+        failed = any(("format_time(" in show(c[0])) and ((show(c[0]).startswith("is_err(") and c[1] != 0) or (show(c[0]).startswith("is_ok(") and c[1] == 0)
+                     or (show(c[0]).startswith("discr(") and c[1] == 1)) for c in pth.conds)
+        if "format_time(" in r and ("from_residual" in r or "Err" in r) or (failed and not r.startswith("Result::Ok") and "write" not in r and "format_time(" in r):
+            leaks.append(r[:80])
+        elif r.startswith("format_time("):
+            leaks.append(r[:80])          # `return self.timer.format_time(writer)`: the timer's result is the function's result
+    if n and not leaks:
+        ck.ok("C13.R15", key, fn=b.path)
+    else:
+        ck.bad("C13.R15", key, where(b.raw["sp"]), "a path returns %s: with a failing timer every event's record is lost" % sorted(set(leaks))[:2], fn=b.path)
+    # the JSON formatter asks the timer itself: same rule
+    jb = F.impl_method("tracing_subscriber::fmt::format::FormatEvent", "tracing_subscriber::fmt::format::Format<tracing_subscriber::fmt::format::json::Json", "format_event")
+    if jb is not None:
+        key = "Format<Json>::format_event swallows the timer's error"
+        leaks = sorted({show(p.ret)[:80] for p in PathEval(jb, max_paths=3000).run() if p.end == "return" and p.ret is not None and "format_time(" in show(p.ret)
+                        and ("from_residual" in show(p.ret) or show(p.ret).startswith("format_time("))})
+        if not leaks:
+            ck.ok("C13.R15", key, fn=jb.path)
+        else:
+            ck.bad("C13.R15", key, where(jb.raw["sp"]), "a path returns %s: with a failing timer every JSON line is lost, while the text formatters write `<unknown time>`" % leaks[:2], fn=jb.path)
 
 
 def r11(ck, F):
